@@ -608,8 +608,9 @@ static plan::Plan genC13(uint64_t seed, const std::string& tier) {
       if (!named) { bool any = false; for (bool q : m.num) if (q == wantNum) any = true; if (!any) wantNum = m.num[0]; }
       numeric = wantNum;
       if (wantNum) {
-        static const char* lists[] = {"4;6;8-10", "<5", ">200", "<=7", ">=250", "0", "1-3;100-120", "254", "17"};
-        values = lists[r.below(9)];
+        // (value lists are sets: entries in any order, also ranges and comparisons mixed)
+        static const char* lists[] = {"4;6;8-10", "<5", ">200", "<=7", ">=250", "0", "1-3;100-120", "254", "17", "8-10;6;4", "100-120;1-3", ">=250;7;1-3", "8;4", "200;<5", "17;3;9"};
+        values = lists[r.below(15)];
       } else {
         static const char* lists[] = {"'abc'", "'abc';'xyz'", "'a~b'", "'on~'"};
         values = lists[r.below(4)];
@@ -657,7 +658,7 @@ static plan::Plan genC13(uint64_t seed, const std::string& tier) {
   if (twoFiles) {
     for (size_t i = 0; i < condNames.size(); i++) {
       std::string values;
-      static const char* nl[] = {"4;6;8-10", "<5", ">200", "<=7", ">=250", "0", "1-3;100-120", "254", "17"};
+      static const char* nl[] = {"4;6;8-10", "<5", ">200", "<=7", ">=250", "0", "1-3;100-120", "254", "8;4"};
       static const char* sl[] = {"'abc'", "'abc';'xyz'", "'a~b'", "'on~'"};
       if (condKind[i] == 1) values = nl[r.below(9)]; else if (condKind[i] == 2) values = sl[r.below(4)];
       p.add("def2 l=*[" + condNames[i] + "],cir," + condMsg[i] + ",," + condField[i] + ",," + values);
@@ -678,8 +679,8 @@ static plan::Plan genC13(uint64_t seed, const std::string& tier) {
       used.insert(ci);
       std::string t = condNames[ci];
       if (condNumeric[ci] && r.chance(0.25)) {
-        static const char* der[] = {"=5", "=1;2;3", "<9", ">=100", "=250-255"};
-        t += der[r.below(5)];
+        static const char* der[] = {"=5", "=1;2;3", "<9", ">=100", "=250-255", "=3;2;1", "=250-255;5"};
+        t += der[r.below(7)];
       }
       pre += "[" + t + "]";
       conds += (conds.empty() ? "" : ",") + t;
